@@ -321,11 +321,20 @@ func (g *gate) NewBatch() db.Batch {
 	return &gbatch{Batch: g.KeyValueStore.NewBatch(), g: g}
 }
 
+// Get lends the callback a private copy of the value and scribbles over it afterwards: whatever
+// the pool keeps from a read (LoadFromDB) must not alias the store's buffer.
 func (g *gate) Get(k []byte, cb func([]byte) error) error {
 	if g.dead.Load() {
 		return errDead
 	}
-	return g.KeyValueStore.Get(k, cb)
+	return g.KeyValueStore.Get(k, func(v []byte) error {
+		lent := bytes.Clone(v)
+		err := cb(lent)
+		for i := range lent {
+			lent[i] = 0xA5
+		}
+		return err
+	})
 }
 
 func (g *gate) Has(k []byte) (bool, error) {
